@@ -40,7 +40,7 @@ def interval_ranges(sp, size):
 
 
 def run(ctx):
-    if not ctx.proof_gate(THEOREMS, ['Split.vo']):
+    if not ctx.proof_gate(THEOREMS, ['Split.vo', 'Build.vo']):
         return
     n = 60 if ctx.tier == 'quick' else 400
     specs = util.corpus(ctx.prop) + gen.gen_many(ctx.seed, n, CFG, 'c14_')
@@ -84,6 +84,7 @@ def run(ctx):
     specs = ctx.specs(specs)
     res = C.run_impl('portfolio', specs)
     exprs, owners = [], []
+    sm_exprs, sm_owners = [], []
     for sp, o in zip(specs, res):
         ctx.count('status:' + str(o.get('status')))
         if o.get('status') != 'ok':
@@ -177,6 +178,10 @@ def run(ctx):
                 ctx.count('variables of split and unsplit problem not in one-to-one correspondence (skipped)')
         if bad:
             ctx.violation('impl-violation', dict(payload, observed=bad, expected='C14'), trigger={'what': sorted(bad)[0]})
+        e_ = util.split_map_expr(sp, s)
+        if e_:
+            sm_exprs.append(e_)
+            sm_owners.append(sp)
         ctx.sample({'spec': sp})
     vals = C.run_coq_exprs('C14', 'Num LP Cert Mapping Dcf Corr', exprs, chunk=4)
     nm = ['unsplit optimum certified (check_opt)', 'concatenated interval solutions feasible for the unsplit problem (check_primal_eps)', 'split value <= unsplit value + eps']
@@ -186,3 +191,10 @@ def run(ctx):
             if not ok:
                 ctx.violation('validator-rejected', {'spec': sp, 'expected': nm[k], 'theorem_or_correspondence': 'C14_split_le_unsplit hypotheses'}, trigger={'what': nm[k]})
     ctx.cov['correspondence']['cases'] = len(exprs)
+    # the joint mapping is the model's split_map of the interval problems (C14_steps_refer_to_original_grid speaks about split_map)
+    vals = C.run_coq_exprs('C14m', 'Num LP Cert Mapping Dcf Grid Assets Periodic Portfolio Corr Build', sm_exprs, chunk=5)
+    for sp, v in zip(sm_owners, vals):
+        ctx.cov['correspondence']['cases'] += 1
+        for nm, ok in zip(util.SPLIT_MAP_NAMES, v):
+            if not ok:
+                ctx.broken('correspondence-broken', {'spec': sp, 'theorem_or_correspondence': 'Portfolio.setup_split_optim_problem vs Split.split_map: ' + nm})
